@@ -8,7 +8,7 @@ use relational_engine::{Column, ColumnType, Condition, RelationalConfig, Relatio
 use std::collections::HashMap;
 
 const T0: u64 = 1000;
-const COLS: [&str; 2] = ["a", "b"];
+const COLS: [&str; 3] = ["a", "b", "_id"]; // column 2 = the system column `_id` (kind `idcol` only)
 
 fn ln(xs: &[u64]) -> String {
     list(xs.iter().map(|x| n(*x)))
@@ -85,9 +85,10 @@ struct World {
     now: u64,
     vv: u64,
     rr: u64,
+    idq: bool, // the dump also asks Eq / Lt / Ge on `_id`
 }
 impl World {
-    fn new(lock_secs: u64, vv: u64, rr: u64, budget: Option<u64>) -> World {
+    fn new(lock_secs: u64, vv: u64, rr: u64, budget: Option<u64>, idq: bool) -> World {
         verif_clock::set(Some(T0));
         let mut cfg = RelationalConfig { lock_timeout_secs: lock_secs, ..RelationalConfig::default() };
         if let Some(bm) = budget {
@@ -98,7 +99,7 @@ impl World {
         // transaction ids come from a process-wide counter: renumber from the id of a throw-away transaction
         let id0 = e.begin_transaction();
         e.rollback(id0).unwrap();
-        World { e, begun: vec![], id0, now: T0, vv, rr }
+        World { e, begun: vec![], id0, now: T0, vv, rr, idq }
     }
     fn real(&self, t: u64) -> u64 {
         t + self.id0
@@ -242,19 +243,34 @@ impl World {
                 }
             }
         }
+        if self.idq {
+            for kind in 0..3 {
+                for v in 1..=5u64 {
+                    let cond = match kind {
+                        0 => Cond::Eq(2, v),
+                        1 => Cond::Lt(2, v),
+                        _ => Cond::Ge(2, v),
+                    };
+                    qs.push(ln(&self.ids(cond.real())));
+                }
+            }
+        }
         let hs: Vec<String> = (1..=self.rr).map(|id| on(self.e.tx_manager().row_lock_holder("t", id).map(|t| self.small(t)))).collect();
         format!("(Dmp {} {} {} {} {})", list(rs), list(qs), list(hs), self.e.tx_manager().active_lock_count(), self.e.active_transaction_count())
     }
 }
 
 fn run_case(ops: &[Op], lock_secs: u64, vv: u64, rr: u64, dist: &mut Dist) -> (String, String, bool) {
-    run_case_b(ops, lock_secs, vv, rr, None, dist)
+    run_case_x(ops, lock_secs, vv, rr, None, false, dist)
+}
+fn run_case_b(ops: &[Op], lock_secs: u64, vv: u64, rr: u64, budget: Option<u64>, dist: &mut Dist) -> (String, String, bool) {
+    run_case_x(ops, lock_secs, vv, rr, budget, false, dist)
 }
 
 /// budget = Some(n): the engine is created with max_btree_entries = n; a transaction whose statement failed half-way
 /// (ResultTooLarge) is rolled back right away
-fn run_case_b(ops: &[Op], lock_secs: u64, vv: u64, rr: u64, budget: Option<u64>, dist: &mut Dist) -> (String, String, bool) {
-    let mut w = World::new(lock_secs, vv, rr, budget);
+fn run_case_x(ops: &[Op], lock_secs: u64, vv: u64, rr: u64, budget: Option<u64>, idq: bool, dist: &mut Dist) -> (String, String, bool) {
+    let mut w = World::new(lock_secs, vv, rr, budget, idq);
     let mut obs = vec![];
     let mut conflicts = 0;
     let mut rollbacks = 0;
@@ -303,6 +319,117 @@ fn gen_cond(r: &mut Rng, vv: u64, depth: u32) -> Cond {
         5 | 6 => Cond::Ge(r.below(2), r.below(vv + 1)),
         _ => Cond::And(Box::new(gen_cond(r, vv, 1)), Box::new(gen_cond(r, vv, 1))),
     }
+}
+
+/// conditions that may also name the system column `_id` (column 2, ids 1..5)
+fn gen_cond_id(r: &mut Rng, vv: u64, depth: u32) -> Cond {
+    if r.chance(1, 2) {
+        return gen_cond(r, vv, depth);
+    }
+    match r.below(if depth == 0 { 4 } else { 3 }) {
+        0 => Cond::Eq(2, r.range(1, 5)),
+        1 => Cond::Lt(2, r.range(1, 6)),
+        2 => Cond::Ge(2, r.range(1, 6)),
+        _ => Cond::And(Box::new(gen_cond_id(r, vv, 1)), Box::new(gen_cond_id(r, vv, 1))),
+    }
+}
+
+/// kind `idcol`: hash / B-tree indexes on `_id` (and on the ordinary columns), created before any transaction starts
+fn gen_ops_id(r: &mut Rng, vv: u64, len: usize) -> Vec<Op> {
+    let mut ops = vec![];
+    let pre_rows = r.range(0, 3);
+    let ddl_first = r.chance(1, 2);
+    let mut ddl = vec![];
+    if r.chance(3, 4) {
+        ddl.push(Op::CreateIndex(2));
+    }
+    if r.chance(3, 4) {
+        ddl.push(Op::CreateBtree(2));
+    }
+    if r.chance(1, 2) {
+        ddl.push(Op::CreateIndex(r.below(2)));
+    }
+    if r.chance(1, 2) {
+        ddl.push(Op::CreateBtree(r.below(2)));
+    }
+    if ddl_first {
+        ops.append(&mut ddl);
+    }
+    for _ in 0..pre_rows {
+        ops.push(Op::Insert(None, r.below(vv), r.below(vv)));
+    }
+    ops.append(&mut ddl);
+    let mut begun = 0u64;
+    for _ in 0..len {
+        let k = r.below(100);
+        let tx = if begun > 0 && r.chance(5, 6) { Some(r.range(1, begun)) } else { None };
+        ops.push(if k < 12 && begun < 3 {
+            begun += 1;
+            Op::Begin
+        } else if k < 30 {
+            Op::Insert(tx, r.below(vv), r.below(vv))
+        } else if k < 50 {
+            Op::Update(tx, gen_cond_id(r, vv, 0), r.below(2), r.below(vv))
+        } else if k < 72 {
+            Op::Delete(tx, gen_cond_id(r, vv, 0))
+        } else if k < 80 && begun > 0 {
+            Op::Commit(r.range(1, begun))
+        } else if begun > 0 {
+            Op::Rollback(r.range(1, begun))
+        } else {
+            Op::Insert(None, r.below(vv), r.below(vv))
+        });
+    }
+    ops
+}
+
+/// family "expired and fresh locks of one transaction": lock timeout 1 s; T1 writes a row, waits, writes another row,
+/// waits until the first lock (only) has timed out; the expired-lock sweep runs; T1 ends; other writers follow
+fn gen_ops_lockmix(r: &mut Rng, vv: u64) -> Vec<Op> {
+    let mut ops = vec![];
+    let nrows = r.range(2, 4);
+    for i in 0..nrows {
+        ops.push(Op::Insert(None, i % vv, r.below(vv)));
+    }
+    if r.chance(1, 3) {
+        ops.push(Op::CreateIndex(r.below(2)));
+    }
+    ops.push(Op::Begin);
+    let first = r.below(vv.min(nrows));
+    let mut second = r.below(vv.min(nrows));
+    if second == first {
+        second = (first + 1) % vv.min(nrows);
+    }
+    let w = |r: &mut Rng, c: Cond| if r.chance(3, 4) { Op::Update(Some(1), c, 1, r.below(vv)) } else { Op::Delete(Some(1), c) };
+    ops.push(w(r, Cond::Eq(0, first)));
+    ops.push(Op::Advance(*r.pick(&[400u64, 600, 900])));
+    ops.push(w(r, Cond::Eq(0, second)));
+    if r.chance(1, 3) {
+        ops.push(Op::Insert(Some(1), r.below(vv), r.below(vv)));
+    }
+    ops.push(Op::Advance(*r.pick(&[101u64, 300, 601, 1001])));
+    if r.chance(4, 5) {
+        ops.push(Op::CleanupLocks);
+    }
+    if r.chance(1, 3) {
+        ops.push(Op::Begin);
+        ops.push(Op::Update(Some(2), Cond::Eq(0, first), 1, r.below(vv)));
+    }
+    ops.push(if r.chance(1, 2) { Op::Commit(1) } else { Op::Rollback(1) });
+    ops.push(Op::Begin);
+    let t = Some(r.range(2, 3));
+    for _ in 0..r.range(1, 3) {
+        ops.push(match r.below(3) {
+            0 => Op::Update(t, Cond::Eq(0, second), 1, r.below(vv)),
+            1 => Op::Update(None, gen_cond(r, vv, 0), r.below(2), r.below(vv)),
+            _ => Op::Delete(t, gen_cond(r, vv, 0)),
+        });
+    }
+    if r.chance(1, 2) {
+        ops.push(Op::CleanupLocks);
+    }
+    ops.push(Op::Commit(2));
+    ops
 }
 
 fn gen_ops(r: &mut Rng, vv: u64, len: usize, ddl_early: bool) -> Vec<Op> {
@@ -393,6 +520,32 @@ fn main() {
             ],
         ),
         (
+            "corpus refused statement keeps the locks already held: T1 updates row 1; T2 updates row 3; T1 update(True) is refused (row 3); T3 update row 1 must still get LockConflict; T1 rollback",
+            30,
+            vec![
+                Op::Insert(None, 0, 0), Op::Insert(None, 1, 1), Op::Insert(None, 2, 2), Op::Begin, Op::Begin, Op::Begin,
+                Op::Update(Some(1), Cond::Eq(0, 0), 1, 2), Op::Update(Some(2), Cond::Eq(0, 2), 1, 0), Op::Update(Some(1), Cond::True, 1, 1),
+                Op::Update(Some(3), Cond::Eq(0, 0), 1, 0), Op::Update(None, Cond::Eq(0, 0), 1, 0), Op::Rollback(1), Op::Commit(2), Op::Commit(3),
+            ],
+        ),
+        (
+            "corpus expired + fresh lock of one transaction: T1 update row 1; 600 ms; T1 update row 2; 500 ms (only row 1's lock has timed out); cleanup_expired_locks; T1 commit -> no lock may remain; T2 updates row 2",
+            1,
+            vec![
+                Op::Insert(None, 1, 1), Op::Insert(None, 2, 2), Op::Begin, Op::Update(Some(1), Cond::Eq(0, 1), 1, 0), Op::Advance(600),
+                Op::Update(Some(1), Cond::Eq(0, 2), 1, 0), Op::Advance(500), Op::CleanupLocks, Op::Commit(1), Op::Begin,
+                Op::Update(Some(2), Cond::Eq(0, 2), 1, 1), Op::Commit(2),
+            ],
+        ),
+        (
+            "corpus expired + fresh lock, rollback: T1 delete row 1; 900 ms; T1 update row 2; 101 ms; cleanup_expired_locks; T1 rollback; delete_rows(True)",
+            1,
+            vec![
+                Op::Insert(None, 1, 1), Op::Insert(None, 2, 2), Op::Begin, Op::Delete(Some(1), Cond::Eq(0, 1)), Op::Advance(900),
+                Op::Update(Some(1), Cond::Eq(0, 2), 1, 0), Op::Advance(101), Op::CleanupLocks, Op::Rollback(1), Op::Delete(None, Cond::True),
+            ],
+        ),
+        (
             "corpus unlocked insert: T1 tx_insert; T2 tx_update(True) on the uncommitted row; T1 rollback; T2 commit",
             30,
             vec![Op::CreateIndex(0), Op::Begin, Op::Begin, Op::Insert(Some(1), 1, 1), Op::Update(Some(2), Cond::True, 0, 2), Op::Rollback(1), Op::Commit(2), Op::Insert(Some(1), 1, 1), Op::Commit(2)],
@@ -422,9 +575,45 @@ fn main() {
         let secs = *rng.pick(&[30u64, 30, 1]);
         let len = rng.range(4, 26) as usize;
         // most cases create their indexes before any transaction starts (DDL inside an open transaction is the known class)
-        let ops = gen_ops(&mut rng, vv, len, i % 5 != 0);
+        let (ops, secs) = if i % 10 == 9 {
+            dist.hit("rel.lockmix");
+            (gen_ops_lockmix(&mut rng, vv), 1)
+        } else {
+            (gen_ops(&mut rng, vv, len, i % 5 != 0), secs)
+        };
         let (t, h, nt) = run_case(&ops, secs, vv, 8, &mut dist);
         rel.push(&t, &h, nt);
+    }
+
+    // ---- idcol: indexes and conditions on the system column `_id`
+    let mut idc = CaseWriter::new(&args.out, "idcol");
+    let icorpus: Vec<(&str, Vec<Op>)> = vec![
+        (
+            "corpus _id indexes: hash + B-tree on _id; rows 1..3; begin; tx_delete(a=1); rollback -> Eq/Lt/Ge(_id) through the indexes must list the row again",
+            vec![
+                Op::CreateIndex(2), Op::CreateBtree(2), Op::Insert(None, 0, 0), Op::Insert(None, 1, 1), Op::Insert(None, 2, 2), Op::Begin,
+                Op::Delete(Some(1), Cond::Eq(0, 1)), Op::Rollback(1),
+            ],
+        ),
+        (
+            "corpus _id indexes created over existing rows: tx_insert + tx_update(_id >= 2) + tx_delete(_id = 1), rollback; then the same committed",
+            vec![
+                Op::Insert(None, 0, 0), Op::Insert(None, 1, 1), Op::CreateBtree(2), Op::CreateIndex(2), Op::CreateIndex(0), Op::Begin,
+                Op::Insert(Some(1), 2, 2), Op::Update(Some(1), Cond::Ge(2, 2), 0, 1), Op::Delete(Some(1), Cond::Eq(2, 1)), Op::Rollback(1), Op::Begin,
+                Op::Insert(Some(2), 2, 2), Op::Update(Some(2), Cond::Ge(2, 2), 0, 1), Op::Delete(Some(2), Cond::Eq(2, 1)), Op::Commit(2),
+            ],
+        ),
+    ];
+    for (what, ops) in &icorpus {
+        let (t, _h, _nt) = run_case_x(ops, 30, 3, 8, None, true, &mut dist);
+        idc.push(&t, what, true);
+    }
+    for _ in 0..args.budget(200, 8000) {
+        let vv = 3;
+        let len = rng.range(4, 20) as usize;
+        let ops = gen_ops_id(&mut rng, vv, len);
+        let (t, h, nt) = run_case_x(&ops, 30, vv, 8, None, true, &mut dist);
+        idc.push(&t, &h, nt);
     }
 
     // ---- budget: a small B-tree entry budget makes index maintenance fail in the middle of a statement
@@ -492,9 +681,9 @@ fn main() {
         &args.out,
         json!({
             "property": "C09", "seed": args.seed, "tier": args.tier,
-            "kinds": [rel.summary(), bud.summary()],
+            "kinds": [rel.summary(), idc.summary(), bud.summary()],
             "distribution": dist.json(),
-            "nontrivial_rule": "rel: at least one rollback of a live transaction or one lock conflict",
+            "nontrivial_rule": "rel / idcol: at least one rollback of a live transaction or one lock conflict",
         }),
     );
 }
